@@ -353,3 +353,36 @@ func init() {
 		return e.ctx.UF("crc32_"+itoa(len(bs)), smt.U32, append([]*smt.Term{e.ctx.Const(smt.U32, 0)}, bs...)...)
 	}
 }
+
+func init() {
+	// assembly select64 of pkg/trie: the package's own portable implementation
+	intrinsics["github.com/lindb/lindb/pkg/trie.select64"] = func(e *Exec, th *Thread, caller *Frame, site ssa.Instruction, args []Value) Value {
+		var pkg *ssa.Package
+		for _, p := range e.prog.AllPackages() {
+			if p.Pkg.Path() == "github.com/lindb/lindb/pkg/trie" {
+				pkg = p
+			}
+		}
+		if pkg == nil || pkg.Func("select64Broadword") == nil {
+			panic(unsupported("select64Broadword not found"))
+		}
+		return e.callFn(th, caller, site, pkg.Func("select64Broadword"), args, nil)
+	}
+	intrinsics["math/bits.OnesCount64"] = func(e *Exec, th *Thread, caller *Frame, site ssa.Instruction, args []Value) Value {
+		t := e.term(args[0])
+		if t.IsConst() {
+			n := 0
+			for x := t.K; x != 0; x &= x - 1 {
+				n++
+			}
+			return e.mkInt(int64(n))
+		}
+		// sum of the 64 bits
+		acc := e.mkInt(0)
+		for i := 0; i < 64; i++ {
+			bit := e.ctx.Conv(e.ctx.Bin(smt.OAnd, e.ctx.Shift(smt.OShr, t, e.ctx.Const(smt.U64, uint64(i))), e.ctx.Const(smt.U64, 1)), smt.I64)
+			acc = e.ctx.Bin(smt.OAdd, acc, bit)
+		}
+		return acc
+	}
+}
